@@ -78,8 +78,9 @@ Section DirLive.
   Hypothesis Hfuel : (ls_pass_bound nL nT <= ls_fuel)%nat.
 
   (* the provider: the only provider-specific obligation *)
-  Variable Iv : D -> Prop.
-  Hypothesis Hwf : dir_wf n D ops Iv.
+  Variables I0 Iv : D -> Prop.
+  Hypothesis Hwf : dir_wf n D ops I0 Iv.
+  Hypothesis HI0 : I0 d0.
 
   Notation tol := (tol P).
   Notation Phi0 := (Phi0 psi_grad_full grad_psi lb ub P x_in ψ g Lf).
@@ -117,7 +118,7 @@ Section DirLive.
 
   Lemma dir_update_wf d (a b : it) : Iv d -> lens a -> lens b -> Iv (snd (dir_update D ops d a b)).
   Proof.
-    intros Hd ((A1 & A2) & A3 & A4) ((B1 & B2) & B3 & B4). unfold dir_update. now apply (wf_update n D ops Iv Hwf).
+    intros Hd ((A1 & A2) & A3 & A4) ((B1 & B2) & B3 & B4). unfold dir_update. now apply (wf_update n D ops I0 Iv Hwf).
   Qed.
 
   (* ------------------------------------------------------------------ the provider through the line search *)
@@ -159,7 +160,7 @@ Section DirLive.
     (* fail branch *)
     match goal with |- context [if ?b then lsloopD fuel q τi ?s1 ?d1 ?r1 else _] => destruct b eqn:Efail; [apply (IH s1 d1 r1)|] end.
     { unfold LenD; cbn [ls_curr ls_next ls_tau ls_tau_prev]. split; [exact Fc|]. split; [exact Fl|]. split; [left; exact Fn|]. reflexivity. }
-    { apply (wf_reset n D ops Iv Hwf), Hd. }
+    { apply (wf_reset n D ops I0 Iv Hwf), Hd. }
     set (next1 := epsih (eprox next)).
     assert (N1 : lens next1) by (apply prox_psih_lens, Fn).
     (* QUB branch *)
@@ -195,7 +196,7 @@ Section DirLive.
 
   Lemma passD_struct (sD : lstateD D) :
     Consistent (st_curr (sd_st D sD)) -> good (st_curr (sd_st D sD)) ->
-    (st_k (sd_st D sD) = 0%nat \/ Iv (sd_dir D sD)) ->
+    ((st_k (sd_st D sD) = 0%nat /\ I0 (sd_dir D sD)) \/ Iv (sd_dir D sD)) ->
     match passD_ sD with
     | PThrowD _ _ => False
     | PFuelD _ => False
@@ -212,16 +213,17 @@ Section DirLive.
     pose proof (g_len _ _ _ _ _ _ _ _ _ _ curr G) as Hlx.
     pose proof (consistent_lens curr Cc Hlx) as ((L1 & L2) & L3 & L4).
     (* initialize *)
+    assert (Hk' : I0 d \/ Iv d) by (destruct Hk as [[_ Hk]|Hk]; [now left|now right]).
     destruct (if (k =? 0)%nat then d_initialize D ops d y_in Σ (igam curr) (ix curr) (ixh curr) (ip curr) (igrad curr) else Some d)
       as [d1|] eqn:Ed1.
     2:{ destruct (Nat.eqb_spec k 0) as [Ek|Ek]; [|discriminate].
-        destruct (wf_init n D ops Iv Hwf d y_in Σ (igam curr) (ix curr) (ixh curr) (ip curr) (igrad curr) L1 L3 L4 L2) as (d' & E & _).
+        destruct (wf_init n D ops I0 Iv Hwf d y_in Σ (igam curr) (ix curr) (ixh curr) (ip curr) (igrad curr) Hk' L1 L3 L4 L2) as (d' & E & _).
         rewrite E in Ed1. discriminate. }
     assert (H1 : Iv d1).
     { destruct (Nat.eqb_spec k 0) as [Ek|Ek].
-      - destruct (wf_init n D ops Iv Hwf d y_in Σ (igam curr) (ix curr) (ixh curr) (ip curr) (igrad curr) L1 L3 L4 L2) as (d' & E & Hd').
+      - destruct (wf_init n D ops I0 Iv Hwf d y_in Σ (igam curr) (ix curr) (ixh curr) (ip curr) (igrad curr) Hk' L1 L3 L4 L2) as (d' & E & Hd').
         rewrite E in Ed1. now injection Ed1 as <-.
-      - injection Ed1 as <-. destruct Hk as [Hk|Hk]; [contradiction|exact Hk]. }
+      - injection Ed1 as <-. destruct Hk as [[Hk _]|Hk]; [contradiction|exact Hk]. }
     (* the common tail: line search, changed_γ, update *)
     assert (Tail : forall (q : list R) (τi : R) (c3 : counters) (stats1 : Panoc.stats (T:=R)) (d3 : D) (tr' : list (option (list R))),
               (τi = 0 \/ τi = 1) -> (τi = 1 -> length q = n) -> Iv d3 ->
@@ -272,7 +274,7 @@ Section DirLive.
       - destruct H5 as [Lcu Lnx]. cbv zeta. cbn [sd_dir sd_trace]. split; [|exact Htr].
         destruct (ls_updated l); cbn [negb andb snd]; [exact H4|].
         apply dir_update_wf; [| |exact Lnx].
-        + destruct (negb (Req_bool (igam (ls_curr l)) (igam (ls_next l)))); [apply (wf_changed n D ops Iv Hwf), H4|exact H4].
+        + destruct (negb (Req_bool (igam (ls_curr l)) (igam (ls_next l)))); [apply (wf_changed n D ops I0 Iv Hwf), H4|exact H4].
         + destruct (negb (Req_bool (igam (ls_curr l)) (igam (ls_next l))) && p_recompute P); [|exact Lcu].
           apply prox_lens. apply Lcu.
       - cbn [sd_dir sd_trace]. split; [exact H4|exact Htr]. }
@@ -280,14 +282,14 @@ Section DirLive.
     change (@nltb R NumR) with Rlt_bool. change (@neqb R NumR) with Req_bool.
     change (@n0 R NumR) with 0. change (@n1 R NumR) with 1. change (@nopp R NumR) with Ropp.
     destruct ((0 <? k)%nat || hasinit).
-    - destruct (wf_apply n D ops Iv Hwf d1 (igam curr) (ix curr) (ixh curr) (ip curr) (igrad curr) q0 H1 L1 L3 L4 L2) as (b & q' & d2 & Ea & H2 & Hb).
+    - destruct (wf_apply n D ops I0 Iv Hwf d1 (igam curr) (ix curr) (ixh curr) (ip curr) (igrad curr) q0 H1 L1 L3 L4 L2) as (b & q' & d2 & Ea & H2 & Hb).
       rewrite Ea.
       set (r := if b then Some q' else None).
       assert (Hr : lenok r) by (unfold lenok, r; destruct b; [intros q1 E; injection E as <-; now apply Hb|discriminate]).
       apply Tail.
       + destruct r as [q1|]; [destruct (vall_finite q1)|]; auto.
       + intros E. destruct r as [q1|] eqn:Er; [|exfalso; lra]. unfold r in Er. destruct b; [|discriminate]. now apply Hb.
-      + match goal with |- Iv (if ?c then _ else _) => destruct c end; [apply (wf_reset n D ops Iv Hwf), H2|exact H2].
+      + match goal with |- Iv (if ?c then _ else _) => destruct c end; [apply (wf_reset n D ops I0 Iv Hwf), H2|exact H2].
       + exists [r]. split; [reflexivity|]. constructor; [exact Hr|constructor].
     - cbn [andb]. apply Tail.
       + now left.
@@ -321,7 +323,7 @@ Section DirLive.
     di_sim : exists s, st_sim (sd_st D sD) s /\ LInvG_ s;
     di_tr : length (sd_trace D sD) = c_apply (st_cnt (sd_st D sD));
     di_len : Forall lenok (sd_trace D sD);
-    di_prov : st_k (sd_st D sD) = 0%nat \/ Iv (sd_dir D sD) }.
+    di_prov : (st_k (sd_st D sD) = 0%nat /\ I0 (sd_dir D sD)) \/ Iv (sd_dir D sD) }.
 
   Lemma final_ok_sim (o o' : outputs (T:=R)) : out_sim o o' -> Final_ok o' -> Final_ok o.
   Proof.
@@ -417,7 +419,7 @@ Section DirLive.
     - cbn [length]. rewrite (init_qub_c_apply psi_grad_full psi_yhat lb ub l1 P _ _ _ _ _ _ _ Eq), c_apply_psih.
       pose proof (init_L_c_apply psi_grad_full grad_psi P x_in) as H0. rewrite E0 in H0. now symmetry.
     - constructor.
-    - left; reflexivity.
+    - left; split; [reflexivity|exact HI0].
   Qed.
 End DirLive.
 
@@ -467,8 +469,9 @@ Section DirLiveInst.
   Hypothesis Hfac : 0 <= p_tau_factor P <= 1.
   Hypothesis Hmin : p_tau_factor P ^ nT < p_tau_min P.
   Hypothesis Hfuel : (ls_pass_bound nL nT <= ls_fuel)%nat.
-  Variable Iv : D -> Prop.
-  Hypothesis Hwf : dir_wf n D ops Iv.
+  Variables I0 Iv : D -> Prop.
+  Hypothesis Hwf : dir_wf n D ops I0 Iv.
+  Hypothesis HI0 : I0 d0.
 
   Notation Phi0 := (Phi0 psi_grad_full grad_psi lb ub P x_in ψ g Lf).
   Notation DoneOk_ := (DoneOk psi_grad_full psi_yhat grad_L grad_psi lb ub D P x_in ψ g n Lf).
@@ -482,7 +485,7 @@ Section DirLiveInst.
     intros Hcrit N fuel HN Hmax Hf.
     pose proof (PL eps_small ψ g n Lf) as He. spec He.
     apply (panocD_live_g psi_grad_full psi_yhat grad_L grad_psi lb ub D ops P x_in y_in Σ errz_in ls_fuel d0 ψ g n Lf ψinf
-             Hpsi Hco Hglen Hqub Hinf Hlb Hub Hne Hxin HLg HL0 HLmax Hqt Hlt Hbeta Hforce nL nT HnL Hfac Hmin Hfuel Iv Hwf
+             Hpsi Hco Hglen Hqub Hinf Hlb Hub Hne Hxin HLg HL0 HLmax Hqt Hlt Hbeta Hforce nL nT HnL Hfac Hmin Hfuel I0 Iv Hwf HI0
              (delta psi_grad_full grad_psi P x_in Lf) ltac:(now apply delta_pos) (fun i _ _ G Hs => He i G Hs) Phi0 N HN Hmax (Rle_refl _) fuel Hf).
   Qed.
 
@@ -499,7 +502,7 @@ Section DirLiveInst.
     intros Hcrit N fuel HN Hmax Hf.
     pose proof (PL eps_small_kkt ψ g n Lf Lg) as He. spec He.
     apply (panocD_live_g psi_grad_full psi_yhat grad_L grad_psi lb ub D ops P x_in y_in Σ errz_in ls_fuel d0 ψ g n Lf ψinf
-             Hpsi Hco Hglen Hqub Hinf Hlb Hub Hne Hxin HLg HL0 HLmax Hqt Hlt Hbeta Hforce nL nT HnL Hfac Hmin Hfuel Iv Hwf
+             Hpsi Hco Hglen Hqub Hinf Hlb Hub Hne Hxin HLg HL0 HLmax Hqt Hlt Hbeta Hforce nL nT HnL Hfac Hmin Hfuel I0 Iv Hwf HI0
              (delta_kkt psi_grad_full grad_psi P x_in Lf Lg) ltac:(now apply (delta_kkt_pos psi_grad_full grad_psi P x_in Lf Lg)) He
              Phi0 N HN Hmax (Rle_refl _) fuel Hf).
   Qed.
